@@ -8,7 +8,7 @@ HERE = os.path.dirname(os.path.dirname(os.path.abspath(__file__)))
 
 TECH_S = "symbolic execution of the real Python code over symbolic tensors (symtorch) + z3 (QF_NRA) per path; counterexamples replayed on the real torch"
 TECH_M = "symbolic execution of the real state-machine code with environment stubs + z3 per path (inductive step / bounded unrolling); counterexamples replayed"
-TECH_F = "bit-precise SMT-LIB floating-point encoding generated from the function's AST (z3 QF_FP) + real-arithmetic path exploration; counterexamples replayed"
+TECH_F = "symbolic execution of the real code on rounding-error-annotated reals (every double operation = exact result * (1+e), |e|<=2^-53, e universally quantified) + z3 (QF_NRA) per path; counterexamples replayed on real doubles"
 
 NOTE_S = (
     "Trusted base: z3 5.1, the symtorch shim (differentially validated against the real torch on every run with the same harness "
